@@ -8,12 +8,16 @@ type FrameCase struct {
 	MsgCase
 	H, R    int
 	NilBody bool
+	NoReg   bool // the checksum registry was emptied (codec.Clear) before the call
 }
 
 func (fc FrameCase) ID() string {
 	s := fc.MsgCase.ID()
 	if fc.NilBody {
 		s = fc.Mod + "." + fc.Typ + "/nilbody"
+	}
+	if fc.NoReg {
+		return fmt.Sprintf("%s/H=%d/R=%d/registry=empty", s, fc.H, fc.R)
 	}
 	return fmt.Sprintf("%s/H=%d/R=%d", s, fc.H, fc.R)
 }
@@ -40,6 +44,10 @@ func (c *Ctx) frameCases(needSum bool) []FrameCase {
 			for _, r := range rs {
 				out = append(out, FrameCase{MsgCase: mc, H: h, R: r})
 			}
+		}
+		if !needSum && fi.Alg != "" {
+			// the length must be right whether or not the frame's checksum service is registered
+			out = append(out, FrameCase{MsgCase: mc, H: 0, R: 0, NoReg: true})
 		}
 	}
 	// absent body
@@ -105,11 +113,32 @@ func frameCheck(c *Ctx, fc FrameCase, wantLen, wantSum bool) {
 		b.B = VecBytes(append(cons, h.prior...))
 		b.R = CI(int64(fc.R))
 	}
+	so := 0 // index shift of the replay steps
+	if fc.NoReg {
+		fn := c.w.fn("codec.Clear")
+		if fn == nil {
+			c.Inconclusive("codec.Clear not found")
+			return
+		}
+		e.pushCall(s, fn, nil, nil)
+		fin := e.Run(s)
+		if len(fin) != 1 || fin[0].panicd != "" || fin[0].cut != "" {
+			c.Inconclusive("codec.Clear did not run to a single result")
+			return
+		}
+		s = fin[0]
+		s.frames = nil
+		s.acc, s.lockEvs, s.locks, s.trace = nil, nil, nil, nil
+		so = 1
+	}
 	steps := func(val func(*Term) uint64) []map[string]any {
 		st := h.encodeSteps(val)
 		if fc.R > 0 {
 			st[0]["hex"] = hexOf(make([]byte, fc.R)) + st[0]["hex"].(string)
 			st[0]["consume"] = fc.R
+		}
+		if fc.NoReg {
+			st = append([]map[string]any{step("op", "registry", "ops", []map[string]any{step("op", "Clear")})}, st...)
 		}
 		return st
 	}
@@ -123,7 +152,7 @@ func frameCheck(c *Ctx, fc FrameCase, wantLen, wantSum bool) {
 		}
 		if !isNilErr(fs.ret) {
 			c.Prove(fs, "encode-succeeds", False, func(val func(*Term) uint64) *Violation {
-				return &Violation{Detail: "frame Encode returns an error", Replay: &ReplayReq{Steps: steps(val), Judge: Judge{Kind: "err_nonnil", Step: 2}}}
+				return &Violation{Detail: "frame Encode returns an error", Replay: &ReplayReq{Steps: steps(val), Judge: Judge{Kind: "err_nonnil", Step: 2 + so}}}
 			})
 			continue
 		}
@@ -147,7 +176,7 @@ func frameCheck(c *Ctx, fc FrameCase, wantLen, wantSum bool) {
 			mk := func(what string) func(val func(*Term) uint64) *Violation {
 				return func(val func(*Term) uint64) *Violation {
 					return &Violation{Detail: what, Model: map[string]any{"input": h.g.Concretize(h.m, val), "prior_hex": hexOf(evalTerms(h.prior, val))},
-						Replay: &ReplayReq{Steps: steps(val), Judge: Judge{Kind: "frame_len", Step: 2, Frame: fi, Prior: fc.H}}}
+						Replay: &ReplayReq{Steps: steps(val), Judge: Judge{Kind: "frame_len", Step: 2 + so, Frame: fi, Prior: fc.H}}}
 				}
 			}
 			c.Prove(fs, "frame-at-least-header", Le(CI(int64(fi.HdrSize+fi.SumSize)), A.Len, true), mk("frame shorter than header plus trailer"))
@@ -177,7 +206,7 @@ func frameCheck(c *Ctx, fc FrameCase, wantLen, wantSum bool) {
 			mk := func(what string) func(val func(*Term) uint64) *Violation {
 				return func(val func(*Term) uint64) *Violation {
 					return &Violation{Detail: what, Model: map[string]any{"input": h.g.Concretize(h.m, val), "prior_hex": hexOf(evalTerms(h.prior, val))},
-						Replay: &ReplayReq{Steps: steps(val), Judge: Judge{Kind: "frame_sum", Step: 2, Frame: fi, Prior: fc.H}}}
+						Replay: &ReplayReq{Steps: steps(val), Judge: Judge{Kind: "frame_sum", Step: 2 + so, Frame: fi, Prior: fc.H}}}
 				}
 			}
 			c.Prove(fs, "wire-checksum", And(cs...), mk("checksum on the wire differs from the algorithm applied to this frame's bytes"))
@@ -190,7 +219,7 @@ func frameCheck(c *Ctx, fc FrameCase, wantLen, wantSum bool) {
 		}
 		c.Prove(fs, "prior-bytes-untouched", And(pcs...), func(val func(*Term) uint64) *Violation {
 			return &Violation{Detail: "frame Encode altered bytes that were already in the buffer",
-				Replay: &ReplayReq{Steps: steps(val), Judge: Judge{Kind: "prefix_ne", Step: 2, ExpectHex: hexOf(evalTerms(h.prior, val))}}}
+				Replay: &ReplayReq{Steps: steps(val), Judge: Judge{Kind: "prefix_ne", Step: 2 + so, ExpectHex: hexOf(evalTerms(h.prior, val))}}}
 		})
 	}
 }
